@@ -219,9 +219,11 @@ pub fn exec(prop: &str, v: &Value) -> Report {
             let b = a.clone();
             // field value afterwards: 2 + k
             let k = count.wrapping_sub(2);
+            let done = std::cell::Cell::new(0usize);
             let leaked = std::panic::catch_unwind(std::panic::AssertUnwindSafe(|| {
                 for _ in 0..k {
                     std::mem::forget(a.clone());
+                    done.set(done.get() + 1);
                 }
             }));
             let mut rejected = leaked.is_err();
@@ -233,6 +235,11 @@ pub fn exec(prop: &str, v: &Value) -> Report {
             }
             if rejected {
                 rep.label("rejected-by-panic");
+                // a rejected call has no effect: two handles and `done` leaked clones own the object
+                let strong = circ::verif::rc_counts(&a).map(|c| c.0 as usize);
+                if strong != Some(2 + done.get()) {
+                    fail(prop, "rejected-call-changed-the-count", format!("after a clone was refused (panic) the strong field reads {:?}, but 2 handles and {} leaked clones own the object", strong, done.get()));
+                }
             }
             rounds(4);
             drop(b);
@@ -260,9 +267,11 @@ pub fn exec(prop: &str, v: &Value) -> Report {
             let w = a.downgrade();
             // weak field now 2 (implicit share + w); afterwards 2 + k
             let k = count.wrapping_sub(2);
+            let done = std::cell::Cell::new(0usize);
             let leaked = std::panic::catch_unwind(std::panic::AssertUnwindSafe(|| {
                 for _ in 0..k {
                     std::mem::forget(w.clone());
+                    done.set(done.get() + 1);
                 }
             }));
             let mut rejected = leaked.is_err();
@@ -274,6 +283,11 @@ pub fn exec(prop: &str, v: &Value) -> Report {
             }
             if rejected {
                 rep.label("rejected-by-panic");
+                // (the weak field: the strong side's implicit share, `w`, and the leaked clones)
+                let weak = circ::verif::rc_counts(&a).map(|c| c.1 as usize);
+                if weak != Some(2 + done.get()) {
+                    fail(prop, "rejected-call-changed-the-count", format!("after a Weak clone was refused (panic) the weak field reads {:?}, but the implicit share, one Weak and {} leaked clones hold the block", weak, done.get()));
+                }
             }
             rounds(4);
             // a strong owner exists and nothing is being destructed: upgrades succeed
